@@ -50,7 +50,7 @@ def numeric_solution(year, values):
                 if abs(c) < 2 ** 31 - 1:
                     S[name] = c
         elif tn == "IntegerField":
-            v = int(text)
+            v = int(text) * 100          # whole numbers (counts, whole-dollar amounts) in hundredths like every other line
             if abs(v) < 2 ** 31 - 1:
                 S[name] = v
         else:
@@ -661,7 +661,7 @@ def isolated_probes(eqs_by_year, tier, seed_):
                     S = {}
                     ok = True
                     for k2, v2 in list(vals.items()) + [("%s.%s" % (finst, e["line"]), r)]:
-                        c = int(round(v2 * 100)) if isinstance(v2, float) else int(v2)
+                        c = int(round(v2 * 100)) if isinstance(v2, float) else int(v2) * 100
                         if abs(c) >= 2 ** 31 - 1:
                             ok = False
                         S[k2] = c
